@@ -252,6 +252,23 @@ func prop(c Case) error {
 		return fmt.Errorf("build: %v", err)
 	}
 	xs := ordinates(g)
+	// two times in three, calls that fail half-way come first (a collection that holds the
+	// geometry and then a member no format can express): they leave nothing behind
+	if (c.D+len(xs))%3 != 0 {
+		bad := geom.NewGeometryCollection()
+		if err := bad.Push(t, geom.NewPoint(geom.NoLayout)); err != nil {
+			return fmt.Errorf("harness: cannot build the unencodable collection: %v", err)
+		}
+		_ = run.Safe(func() error {
+			if txt, err := wkt.Marshal(bad, wkt.EncodeOptionWithMaxDecimalDigits(c.D)); err == nil && c.Format == "wkt" {
+				return fmt.Errorf("wkt.Marshal of a collection with a NoLayout member succeeded: %q", clip(txt))
+			}
+			_, _ = wkt.NewEncoder(wkt.EncodeOptionWithMaxDecimalDigits((c.D + 3) % 16)).Encode(bad)
+			_, _ = geojson.Marshal(bad, geojson.EncodeGeometryWithMaxDecimalDigits(c.D), geojson.EncodeGeometryWithBBox())
+			_, _ = geojson.Marshal(geom.NewLinearRingFlat(geom.XY, []float64{0.123456789, 1, 2, 3, 4, 5, 0.123456789, 1}), geojson.EncodeGeometryWithMaxDecimalDigits(c.D))
+			return nil
+		})
+	}
 	if c.Format == "wkt" {
 		// one option slice, used for two calls (callers keep their options around)
 		wopts := []wkt.EncodeOption{wkt.EncodeOptionWithMaxDecimalDigits(c.D)}
